@@ -280,6 +280,36 @@ def notification(P, R):
     R.floor('C15.MPT.1', 5)
 
 
+def live_root_not_wiped(P, R, rule='C15.WMC.2'):
+    """The live tree's root is a static object that is initialised lazily - and the initialisation can be entered twice
+    (the first configuration call registers a log facility, which registers the `logs` section, which initialises the
+    configuration).  What the inner run put into the root must survive the outer one: the root is set up member by
+    member, its contents being left to the set code - nothing clears or overwrites the object as a whole."""
+    unit = P.need_fn('conf_read').unit
+    roots = {g['name'] for g in P.globals_of(unit)} if hasattr(P, 'globals_of') else set()
+    n = 0
+    for f in P.unit_fns(unit):
+        for s in f.calls():
+            if s.ev.get('callee') in ('memset', 'memcpy', 'memmove', 'bzero', '__builtin_memset', '__memset_chk', '__builtin___memset_chk'):
+                a = s.ev['args'][0] if s.ev['args'] else None
+                if isinstance(a, dict) and a.get('k') == 'un' and a.get('op') == '&' and is_var(a.get('e')) and a['e'].get('sc') in ('file_static', 'global') and a['e'].get('rec') == 'conf_node_object':
+                    n += 1
+                    R.ob(rule, False, s, '%s overwrites the whole live root object %s with %s' % (f.name, a['e']['name'], s.ev['callee']), key='root-wiped:%s' % f.name)
+        for s in f.stores():
+            lhs = s.ev.get('lhs') or {}
+            if s.ev['k'] == 'store' and is_var(lhs) and lhs.get('sc') in ('file_static', 'global') and lhs.get('rec') == 'conf_node_object':
+                n += 1
+                R.ob(rule, False, s, '%s assigns the live root object %s as a whole' % (f.name, lhs['name']), key='root-wiped:%s' % f.name)
+            # the set's own members (its tree and its count) are the set code's to write
+            if s.ev['k'] == 'store' and lhs.get('k') == 'mem' and lhs.get('field') in ('root', 'count') and lhs.get('rec') == 'set' and root_var(lhs) is not None and root_var(lhs).get('sc') in ('file_static', 'global'):
+                n += 1
+                R.ob(rule, False, s, '%s writes the member %s of the live root\'s set itself' % (f.name, lhs['field']), key='root-set-written:%s' % f.name)
+    init = P.need_fn('config_init')
+    members = sorted({(t.ev['lhs'] or {}).get('field') for t in init.stores() if t.ev['k'] == 'store' and root_var(t.ev.get('lhs') or {}) is not None and root_var(t.ev['lhs']).get('rec') == 'conf_node_object'} - {None})
+    R.ob(rule, bool(members), init, 'config_init sets the live root up member by member (%s)' % ', '.join(members), key='root-memberwise', nontrivial=False)
+    R.floor(rule, 1)
+
+
 def merge_details(P, R, rule='C15.MPT.6'):
     """Four small invariants of the merge that the coarser rules do not see:
     (flag)   the "membership changed" flag only ever goes up inside the merge loop - a plain assignment of a later
@@ -978,4 +1008,5 @@ def run(P, R, tier):
     from ..report import Remap as _Remap
     from . import c16 as _c16
     _c16.unknown_chars(P, _Remap(R, {'C16.GRD.1': 'C15.GRD.6'}))
+    live_root_not_wiped(P, R)
     return EXPLANATION, ASSUMPTIONS
